@@ -340,3 +340,98 @@ Example C16_example_contraction :
     Some ([], [0; 1; 2; 3; 4; 5; 6; 7; 8], [0; 1; 2; 4; 5; 8; 9; 16; 19], [(6, 10); (12, 14); (17, 20); (22, 24)]).
 Proof. exact ContrProofs.ttndo_contr_example. Qed.
 Print Assumptions C16_example_contraction.
+
+(* ===================================================================================================== *)
+(* Value level: trace() = <psi|psi> as ONE statement (model TTNDO/Value.v, proofs TTNDO/ValueProofs.v).  *)
+(* gvalue = the denotation of glued diagrams of C04 (Contr/TensorProdBridge.v) over any commutative      *)
+(* semiring; scalar_product woff aoff s None = contract_two_ttns s (conj_store s) = the <psi|psi> diagram *)
+(* of C04.  The premises: `ttndo_of` = d is structurally the network from_ttns builds from s with root   *)
+(* bond dimension k (decidable, `ttndo_ofb`), `build_contracts` = the three value-level facts about the  *)
+(* stored arrays: bra atom = what C04's conjugate copy holds / ket atom = the state's tensor; the root   *)
+(* tensor padded with zeros to k slices; the artificial root = eye(k).                                   *)
+(* ===================================================================================================== *)
+From PTN Require Wire.Sem TTN.InvSem Contr.TensorProd Contr.TensorProdBridge TTNDO.Value TTNDO.ValueProofs.
+From Coq Require Import ZArith.
+
+(* for every well-formed state store s with one open leg per node (any node tensors: atoms, inner sums), every tree,
+   every root bond dimension k >= 1, every commutative semiring and every pair of atom tables satisfying the build
+   contracts: trace_ttndo succeeds on the network, scalar_product succeeds on the state, both return closed diagrams,
+   and the two diagrams have the same value *)
+Theorem C16_trace_value : forall (R : Type) (zero one : R) (add mul : R -> R -> R),
+  Sem.comm_semiring zero one add mul ->
+  forall (woff aoff : nat) (im : Contr.idmaps) (d s : Store.store) (r0 : nat) (ts : Closed.rt) (k : nat)
+         (tblD tblS : nat -> list nat -> R),
+  InvSem.wfs s -> TensorProdBridge.one_open s -> 0 < woff -> Store.next_wire s <= woff -> Store.next_atom s <= aoff ->
+  Closed.ket_tree s = Some ts -> 1 <= k ->
+  Value.ttndo_of im d s r0 ts k ->
+  Value.build_contracts R zero one add mul woff aoff im d s r0 ts k tblD tblS ->
+  exists gD gS,
+    Contr.trace_ttndo im d = Some gD /\ TensorProd.scalar_product woff aoff s None = Some gS /\
+    Blocks.gaxes gD = [] /\ Blocks.gaxes gS = [] /\
+    forall rho rho',
+      TensorProdBridge.gvalue R zero one add mul (Sem.atom_wires d) (Store.wdim d) tblD gD rho
+      = TensorProdBridge.gvalue R zero one add mul (TensorProdBridge.pair_wires s (TensorProd.conj_store woff aoff s))
+          (TensorProdBridge.pair_dim s (TensorProd.conj_store woff aoff s)) tblS gS rho'.
+Proof. exact ValueProofs.trace_value. Qed.
+Print Assumptions C16_trace_value.
+
+(* the same with every structural hypothesis in executable form (what the harness evaluates per build case) *)
+Theorem C16_trace_value_checked : forall (R : Type) (zero one : R) (add mul : R -> R -> R),
+  Sem.comm_semiring zero one add mul ->
+  forall (woff aoff : nat) (im : Contr.idmaps) (d s : Store.store) (r0 : nat) (k : nat) (tblD tblS : nat -> list nat -> R),
+  Value.value_hyp woff aoff im d s r0 k = true ->
+  (forall ts, Closed.ket_tree s = Some ts -> Value.build_contracts R zero one add mul woff aoff im d s r0 ts k tblD tblS) ->
+  exists gD gS,
+    Contr.trace_ttndo im d = Some gD /\ TensorProd.scalar_product woff aoff s None = Some gS /\
+    Blocks.gaxes gD = [] /\ Blocks.gaxes gS = [] /\
+    forall rho rho',
+      TensorProdBridge.gvalue R zero one add mul (Sem.atom_wires d) (Store.wdim d) tblD gD rho
+      = TensorProdBridge.gvalue R zero one add mul (TensorProdBridge.pair_wires s (TensorProd.conj_store woff aoff s))
+          (TensorProdBridge.pair_dim s (TensorProd.conj_store woff aoff s)) tblS gS rho'.
+Proof. exact ValueProofs.trace_value_b. Qed.
+Print Assumptions C16_trace_value_checked.
+
+(* soundness of the executable forms: structure, and (over Z) the build contracts checked on every in-range index *)
+Theorem C16_ttndo_ofb_sound : forall (im : Contr.idmaps) (d s : Store.store) (r0 : nat) (ts : Closed.rt) (k : nat),
+  Value.ttndo_ofb im d s r0 ts k = true -> Value.ttndo_of im d s r0 ts k.
+Proof. exact ValueProofs.ttndo_ofb_sound. Qed.
+Print Assumptions C16_ttndo_ofb_sound.
+
+Theorem C16_build_contractsb_sound : forall (woff aoff : nat) (im : Contr.idmaps) (d s : Store.store) (r0 : nat) (ts : Closed.rt) (k : nat)
+    (tblD tblS : nat -> list nat -> Z),
+  Value.build_contractsb woff aoff im d s r0 ts k tblD tblS = true ->
+  Value.build_contracts Z 0%Z 1%Z Z.add Z.mul woff aoff im d s r0 ts k tblD tblS.
+Proof. exact ValueProofs.build_contractsb_sound. Qed.
+Print Assumptions C16_build_contractsb_sound.
+
+(* the core of the argument, usable on its own: sums over two wire lists that correspond wire by wire *)
+Theorem C16_sum_rename : forall (R : Type) (zero : R) (add : R -> R -> R) (dim dim' : nat -> nat)
+    (F F' : (nat -> nat) -> R) (ps : list (nat * nat)) (rho rho' : nat -> nat),
+  NoDup (map fst ps) -> NoDup (map snd ps) ->
+  (forall p, In p ps -> dim (fst p) = dim' (snd p)) ->
+  (forall r r', (forall p, In p ps -> r (fst p) < dim (fst p) /\ r' (snd p) = r (fst p)) ->
+                (forall w, ~ In w (map fst ps) -> r w = rho w) ->
+                (forall w, ~ In w (map snd ps) -> r' w = rho' w) -> F r = F' r') ->
+  Sem.sum_bnd R zero add dim (map fst ps) F rho = Sem.sum_bnd R zero add dim' (map snd ps) F' rho'.
+Proof. exact ValueProofs.sum_bnd_rename. Qed.
+Print Assumptions C16_sum_rename.
+
+(* non-vacuity: the four-node tree of the examples above, root bond dimensions 1, 2 and 3 (3 is more than any bond of
+   the state needs: the padding is exercised); the state's atoms and those of its conjugate copy carry unrelated integer
+   entries, the network's table is eye(k) / the padded root tensors / the twins.  All structural hypotheses and the
+   build contracts (every in-range index) evaluate to true, and both diagrams evaluate to the same number. *)
+Example C16_example_value :
+  Closed.ket_tree Value.vx_s = Some Value.vx_ts /\
+  Value.value_case Value.vx_bond Value.vx_phys 1 Value.vx_t 1000 100 = true /\
+  Value.value_case Value.vx_bond Value.vx_phys 2 Value.vx_t 1000 100 = true /\
+  Value.value_case Value.vx_bond Value.vx_phys 3 Value.vx_t 1000 100 = true /\
+  Value.build_contractsb 1000 100 Contr.code_maps (Value.vx_d 1) Value.vx_s 0 Value.vx_ts 1 Value.vx_tblD Value.vx_tblS = true /\
+  Value.build_contractsb 1000 100 Contr.code_maps (Value.vx_d 2) Value.vx_s 0 Value.vx_ts 2 Value.vx_tblD Value.vx_tblS = true /\
+  Value.build_contractsb 1000 100 Contr.code_maps (Value.vx_d 3) Value.vx_s 0 Value.vx_ts 3 Value.vx_tblD Value.vx_tblS = true.
+Proof. exact ValueProofs.value_example_hyp. Qed.
+Print Assumptions C16_example_value.
+
+Example C16_example_value_numbers :
+  Value.vx_norm = Some 2494%Z /\ Value.vx_trace 1 = Some 2494%Z /\ Value.vx_trace 2 = Some 2494%Z.
+Proof. exact ValueProofs.value_example_numbers. Qed.
+Print Assumptions C16_example_value_numbers.
